@@ -394,20 +394,24 @@ def trunc_case(arg):
                             cuts.append((pos + 1024, "inside-payload-of-" + xt[pos + 156:pos + 157].decode("latin1")))
                     chain = ext
                     pos += 512 + dlen
-                for off, what in cuts:
+                for ci, (off, what) in enumerate(cuts):
                     variants.append((off, t2s.args, "%s-%s" % (fname, what), xt))
                     oc.inc("record_boundary_cuts")
+                    if ci % 3 == 0 and "tar2sqfs-gz" in byname:
+                        # the same cut inside a complete gzip stream: the end of input is reported by the decompressing wrapper
+                        variants.append((None, byname["tar2sqfs-gz"].args, "%s-%s-gzip" % (fname, what), __import__("gzip").compress(xt[:off], mtime=0)))
+                        oc.inc("record_boundary_cuts_gzip")
             for off, targs, what, tdata in variants:
-                sc = Scenario("tar2sqfs", "tar2sqfs", targs, stdin=tdata[:off], outpath=t2s.outpath, packer=True)
+                sc = Scenario("tar2sqfs", "tar2sqfs", targs, stdin=tdata if off is None else tdata[:off], outpath=t2s.outpath, packer=True)
                 res = run_one(B, sc, work, {})
                 oc.inc("truncated_tar_runs")
                 oc.inc("truncated_tar_" + what)
                 if res.san:
-                    oc.violate("tar2sqfs:truncated-input:crash:%s" % res.san, "cut at %d (%s)" % (off, what), {"stderr.txt": res.err})
+                    oc.violate("tar2sqfs:truncated-input:crash:%s" % res.san, "cut at %s (%s)" % (off, what), {"stderr.txt": res.err})
                 elif res.rc == 0:
-                    oc.violate("tar2sqfs:truncated-input:accepted:%s" % what, "tar cut at byte %d of %d (inside %s) packed with exit 0" % (off, len(tdata), what))
+                    oc.violate("tar2sqfs:truncated-input:accepted:%s" % what, "tar cut at byte %s of %d (inside %s) packed with exit 0" % (off, len(tdata), what))
                 elif not res.err.strip():
-                    oc.violate("tar2sqfs:truncated-input:silent-failure", "cut at %d (%s)" % (off, what))
+                    oc.violate("tar2sqfs:truncated-input:silent-failure", "cut at %s (%s)" % (off, what))
             for off in inside[:40 if tier == "quick" else 400]:
                 sc = Scenario("tar2sqfs", "tar2sqfs", t2s.args, stdin=tardata[:off], outpath=t2s.outpath, packer=True)
                 res = run_one(B, sc, work, {})
